@@ -152,10 +152,14 @@ class Facts:
                 b = json.loads(line)
                 self.mir[b["def"]] = b
         self.hir = {}
+        self.hir_consts = {}
         with open(os.path.join(outdir, stem + ".hir.jsonl")) as f:
             for line in f:
                 b = json.loads(line)
-                self.hir[b["def"]] = b
+                if b.get("kind") in ("Fn", "AssocFn"):
+                    self.hir[b["def"]] = b
+                else:
+                    self.hir_consts[b["def"]] = b  # initialisers of const / static items
         self.adts = {a["path"]: a for a in self.items["adts"]}
         self.impls = self.items["impls"]
         self.traits = {t["path"]: t for t in self.items["traits"]}
